@@ -27,7 +27,7 @@ STRUCTURAL = set(SIG) - {'a', 'b', '1', ' ', '\n', ',', '=', '|', '*'}
 
 # Tokens for the macros of the every-type custom context (pv.contexts.every_type_db)
 EVERYTYPE_TOKENS = [
-    '\\mstar', '\\mopt', '\\mmand', '\\mm', '\\mo', '\\ms', '\\mt', '\\mr', '\\md', '\\mv',
+    '\\mstar', '\\mopt', '\\mmand', '\\mm', '\\mo', '\\ms', '\\mt', '\\mr', '\\md', '\\mv', '\\mvb',
     '\\mcombo', '\\mmath', '\\mtext', '\\begin{eenv}', '\\end{eenv}', '+', '<', '>',
 ]
 
